@@ -10,12 +10,15 @@ CLAIMED = {
              "lane occupancy/interleaving, lane bookkeeping invariant; the synchronous base family (own update and padding "
              "code) is proved separately (C01_base: baseUpdate = absorb, its padding = hash_pad's blocks). Tie: per-call correspondence of all 28 "
              "(algorithm,family) managers with the compiled model on seeded histories, plus OpenSSL digest monitor. "
+             "T-route for hash_pad: the C function of all 23 SIMD-family context files is regenerated from the source (clang AST -> "
+             "Gen/HashPad.lean) on every run and proved equal to the model's padding for every total and every buffer content "
+             "(GenProps/HashPad.lean: all_canon, hashpad_current), plus in-process correspondence of the real function. "
              "SIMD kernels are modelled (compress^n), not verified.",
         note="Trusted: Lean kernel; axioms propext/Classical.choice/Quot.sound; the correspondence harness "
              "(differential, bounded by its generators); Spec/*.lean transcriptions (tested on vectors); OpenSSL as "
              "independent oracle. The model's loop bounds are proved never to be reached (C06_total).",
-        technique="Lean 4 proof over hand-written model + differential correspondence per family",
-        engine="HashMB", ref="4.1, 5 C01"),
+        technique="Lean 4 proof over hand-written model + differential correspondence per family; Lean 4 proof over the translated hash_pad source",
+        engine="HashMB", ref="4.1, 5 C01, 10.9"),
 }
 
 CLAIMED["C06"] = dict(
@@ -37,11 +40,17 @@ CLAIMED["C11"] = dict(
          "injected anywhere keep the invariant under which C01/C06 hold; wrapper return code: 0 for every accepted "
          "submit (no poisoning), documented code for rejected ones; the pre-fix wrapper is refuted by a kernel-checked "
          "witness (defect D3, fixed in /repo 6fe72f6). Tie: correspondence with 30% rejected submits on all families, "
-         "byte-compare of manager and all contexts around every rejected call, public-API return-code monitor.",
-    note="Trusted: Lean kernel + standard axioms; harness. The wrapper's return-code mapping is hand-modelled "
-         "(Props/C11.lean isalCode) and tied by the public-API monitor on the dispatched family only.",
-    technique="Lean 4 proof over hand-written model + differential correspondence + byte-compare monitor",
-    engine="HashMB", ref="5 C11")
+         "byte-compare of manager and all contexts around every rejected call, public-API return-code monitor. T-route: the "
+         "bookkeeping prefix of every SIMD-family _ctx_mgr_submit_ (23 files) is regenerated from the source (clang AST -> "
+         "Gen/SubmitPrefix.lean) on every run and proved, for every flags word, length and context state, to take the model's "
+         "rejection, store the error code and nothing else, and to clear the error on acceptance (canon_run, prefix_refines, "
+         "all_canon, submit_prefix_current); a failing obligation is searched for a witness (findWitness) that "
+         "harness/drv_submit.c replays on the real function.",
+    note="Trusted: Lean kernel + standard axioms; harness; clang's parse + tools/gen_submit.py. The wrapper's return-code mapping is hand-modelled "
+         "(Props/C11.lean isalCode) and tied by the public-API monitor on the dispatched family only. The base family's submit "
+         "(different shape) stays on the hand-written model + correspondence.",
+    technique="Lean 4 proof over hand-written model + Lean 4 proof over the translated submit prefix + differential correspondence + byte-compare monitor",
+    engine="HashMB", ref="5 C11, 10.9")
 
 CLAIMED["C15"] = dict(
     text="Proof (Lean 4): theorem C01/C15 hold for every stream below 2^61 bytes with no other size hypothesis, so "
@@ -49,12 +58,15 @@ CLAIMED["C15"] = dict(
          "segment lengths; 64-bit bit-length field; packed lane words (blocks<<shift|lane) fit below the idle marker "
          "and order lexicographically. Tie: every one of the 28 family managers really hashes streams crossing the "
          "totals (segments up to 2^32-1 bytes on an aliased 4 GiB window); all intermediate digests/totals compared "
-         "with the Lean model, final digest with OpenSSL.",
-    note="Trusted: Lean kernel + standard axioms; the model side evaluates big segments as absorb/target of the "
+         "with the Lean model, final digest with OpenSSL. T-route: hash_pad (where the length field is computed) and the "
+         "total_length bookkeeping of submit (reset on FIRST, += len modulo 2^64, C integer promotions as clang resolves them) "
+         "of all 23 SIMD-family context files are regenerated from the source on every run and proved for ALL totals < 2^64 "
+         "(GenProps/HashPad.lean, GenProps/SubmitPrefix.lean).",
+    note="Trusted: Lean kernel + standard axioms; clang's parse + tools/gen_hashpad.py, gen_submit.py; the model side evaluates big segments as absorb/target of the "
          "stream (RHS of theorem C01) in 4 KiB pieces, not through the lane scheduler; machine widths of lens[] are "
          "outside the model (Nat) and are covered by the big runs + pack lemmas. quick = 2^29 crossing only.",
-    technique="Lean 4 proof over hand-written model + big-stream differential correspondence",
-    engine="HashMB", ref="5 C15")
+    technique="Lean 4 proof over hand-written model + Lean 4 proof over translated hash_pad / submit prefix + big-stream differential correspondence",
+    engine="HashMB", ref="5 C15, 10.9")
 
 _AES_NOTE = ("Trusted: Lean kernel + standard axioms; Spec/{Aes,Gf128,Gcm,Xts,Cbc}.lean transcriptions (tested on "
              "FIPS-197 / SP 800-38D / IEEE 1619 / SP 800-38A vectors); the equality 'assembly = specification' is "
@@ -165,7 +177,9 @@ CLAIMED["C20"] = dict(
          "partial_block_enc_key (C20_gcm, C20_gcm_context, C20_gcm_update), for both protocol variants. Tie: every hash "
          "manager and AES family entry point executed twice on the same op stream with differently poisoned object "
          "memory and, through harness/tramp.asm, differently poisoned caller-saved GPRs, zmm0-31, k1-k7, flags and "
-         "64 KiB of dead stack: result streams identical to each other and to the model.",
+         "64 KiB of dead stack: result streams identical to each other and to the model. The multi-hash and rolling-hash "
+         "drivers run as paired executions too (different junk in the context / state object before init). T-route: "
+         "hashpad_current_junk - hash_pad of the current source does not depend on the stale content of the pad buffer.",
     note="Trusted: Lean kernel + standard axioms; harness/tramp.asm. 32-bit arguments are passed zero-extended (several "
          "asm routines use them as 64-bit quantities) - recorded assumption. mh/rolling drivers: memory poisoning only. "
          "The static 'no read of an undefined register' rule of DESIGN.md is not built.",
@@ -194,7 +208,8 @@ CLAIMED["C17"] = dict(
          "single status word (x86-TSO is coherent per location, lock cmpxchg is a full barrier); the self-test functions "
          "are opaque calls returning a value of the extracted set; fairness is an assumption of the liveness clauses; "
          "the portable gate is checked on gcc's x86-64 code of the same C source (other targets' compilers are outside). "
-         "Which entry points call isal_self_tests first is C13's subject.",
+         "Which entry points call isal_self_tests first is C13's subject; its generated gate obligations (gate_ok, shape_fips_ok, "
+         "opaque_fips_ok, approved_tests_first) are re-checked by this check against the same tree.",
     technique="Lean 4 protocol proof + verified simulation checker over translated disassembly + stress correspondence",
     engine="SelfTest", ref="5 C17")
 
@@ -226,7 +241,8 @@ CLAIMED["C16"] = dict(
          "real-mode harness: legacy/isal_ pairs byte-identical on random valid inputs, in-domain calls return 0.",
     note="Trusted: Lean kernel + standard axioms; clang AST + translator; hand-written ApiDomain (cross-checked by "
          "shapeMismatch and the harness). flags > 3 of the hash managers is refused through ctx->error (by design; "
-         "modelled as calleeReported). F7, F15, F19 found by this check and fixed.",
+         "modelled as calleeReported; the callee's validation prefix is covered by the submit-prefix T-route, "
+         "GenProps/SubmitPrefix.lean, re-checked here). F7, F15, F19 found by this check and fixed.",
     technique="Lean 4 verified checker over translated wrappers (decide +kernel) + enumeration correspondence",
     engine="Wrapper", ref="5 C16")
 
@@ -359,6 +375,12 @@ m = {
          "kind_free_text": "abstract n-thread status-word protocol + mini-ISA machine (Impl/SelfTestMachine.lean) + verified simulation checker; tools/gen_selftest.py translator; harness/drv_fips.c"},
         {"name": "HashMB", "path": "lean/IsalVerif/Impl/HashMB.lean", "serves_properties": ["C01", "C06", "C11", "C15", "C20"],
          "kind_free_text": "hand-written Lean model of ctx layer + lane scheduler; correspondence harness harness/drv_hash.c"},
+        {"name": "CtxC", "path": "lean/IsalVerif/Impl/PadC.lean", "serves_properties": ["C01", "C11", "C15", "C16", "C20"],
+         "kind_free_text": "T-route for the C context layer: tools/gen_hashpad.py + tools/gen_submit.py (clang-14 JSON AST) translate hash_pad and the "
+                           "bookkeeping prefix of _ctx_mgr_submit_ of the 23 SIMD-family files into Impl/PadC.lean / Impl/SubmitC.lean programs; "
+                           "Lemmas/PadCProofs.lean, Lemmas/SubmitCProofs.lean prove them against Impl/HashMB.lean for all inputs; "
+                           "GenProps/HashPad.lean, GenProps/SubmitPrefix.lean are the per-run obligations; harness/drv_hashpad.c, drv_submit.c "
+                           "#include the .c file and run the real functions in-process (correspondence / witness replay)"},
     ],
     "checks": checks,
     "not_applicable": na,
